@@ -703,7 +703,6 @@ func noReturnBlock(b *ssa.BasicBlock) bool {
 var confirmedPanicFree = map[string]string{
 	"L13|(*internal/filefmt.CoffFormat).Write|finalBytes[0:coffHeaderSize]":                                    "the buffer starts with a placeholder of coffHeaderSize + 3×coffSectionHeaderSize bytes written before any data (rule P4 checks that order)",
 	"L13|(*internal/filefmt.CoffFormat).Write|finalBytes[currentOffset:currentOffset + coffSectionHeaderSize]": "as above; currentOffset runs over the three section-header slots of that placeholder",
-	"L13|internal/codegen.ResolveOpcode|opStr[i:i + 2]":                                                        "i steps by 2 below len(opStr), whose length was tested to be even",
 	"L13|internal/codegen.handleLGDT|opStr[1:len(opStr) - 1]":                                                  "opStr begins with `[` and ends with `]` (tested just above): two different characters, so it has at least two",
 	"M13b|internal/codegen.getImmediateValue|make with a run-time length":                                      "the length is the immediate width of the matched table row (1, 2 or 4 — rule T5 for the hand-written rows, JSON rows are data of the trusted base)",
 	"M13b|internal/codegen.handleALIGNB|make with a run-time length":                                           "padding is smaller than the alignment unit, which pass 1 hands over as a positive int32 (processALIGNB converts and rejects the rest)",
@@ -1017,6 +1016,9 @@ func memoryProportional(v ssa.Value, depth int) bool {
 		switch x.Op {
 		case token.ADD, token.SUB, token.MUL:
 			return memoryProportional(x.X, depth+1) && memoryProportional(x.Y, depth+1)
+		case token.QUO, token.REM, token.SHR:
+			// an integer quotient, remainder or right shift is no larger than the dividend
+			return memoryProportional(x.X, depth+1)
 		}
 	case *ssa.Convert:
 		return memoryProportional(x.X, depth+1)
@@ -1137,6 +1139,10 @@ func sliceExprCovered(f *ssa.Function, sl *ssa.Slice, blk *ssa.BasicBlock) (stri
 	curUseBlock = blk
 	// rest[:2] / rest[2:] while consuming a string of even length two characters at a time
 	if why, ok := evenConsumeProof(f, sl, blk); ok {
+		return why, true
+	}
+	// s[k*n : k*n+k] with n < len(s)/k, or s[i : i+k] with i stepping by k below a length that is a multiple of k
+	if why, ok := strideWindowProof(f, sl, blk); ok {
 		return why, true
 	}
 	constOf := func(v ssa.Value) (int64, bool) {
@@ -1833,6 +1839,174 @@ func isLoopHeaderPhi(p *ssa.Phi) bool {
 		}
 		if e != ssa.Value(p) && dep(e, 0) {
 			return true
+		}
+	}
+	return false
+}
+
+// strideWindowProof decides the two ways of walking a string or slice in windows of k elements:
+//   - s[k*n : k*n+k] where n is tested to be below len(X) and X was made with len(s)/k elements
+//     (k*n+k <= k*(len(s)/k) <= len(s));
+//   - s[i : i+k] where i starts at 0, is advanced by k only, is tested to be below len(s), and
+//     len(s)%k == 0 has been established (i is a multiple of k below a multiple of k).
+func strideWindowProof(f *ssa.Function, sl *ssa.Slice, blk *ssa.BasicBlock) (string, bool) {
+	if sl.Low == nil || sl.High == nil || sl.Max != nil {
+		return "", false
+	}
+	same := func(a ssa.Value) bool {
+		if a == sl.X {
+			return true
+		}
+		ka, kx := lenKey(f, a), lenKey(f, sl.X)
+		return ka != "" && ka == kx
+	}
+	strip := func(v ssa.Value) ssa.Value {
+		for {
+			cv, ok := v.(*ssa.Convert)
+			if !ok {
+				return v
+			}
+			v = cv.X
+		}
+	}
+	hb, ok := sl.High.(*ssa.BinOp)
+	if !ok || hb.Op != token.ADD {
+		return "", false
+	}
+	var k int64
+	var hbase ssa.Value
+	if kc, ok := hb.Y.(*ssa.Const); ok && isIntConst(kc) {
+		k, hbase = kc.Int64(), hb.X
+	} else if kc, ok := hb.X.(*ssa.Const); ok && isIntConst(kc) {
+		k, hbase = kc.Int64(), hb.Y
+	}
+	if k < 1 {
+		return "", false
+	}
+	// mulOf: v == k*n
+	mulOf := func(v ssa.Value) ssa.Value {
+		m, ok := v.(*ssa.BinOp)
+		if !ok || m.Op != token.MUL {
+			return nil
+		}
+		if kc, ok := m.X.(*ssa.Const); ok && isIntConst(kc) && kc.Int64() == k {
+			return m.Y
+		}
+		if kc, ok := m.Y.(*ssa.Const); ok && isIntConst(kc) && kc.Int64() == k {
+			return m.X
+		}
+		return nil
+	}
+	// dominating test  a < len(X)
+	boundedBy := func(a ssa.Value, accept func(X ssa.Value) bool) bool {
+		for _, b := range f.Blocks {
+			iff, ok := b.Instrs[len(b.Instrs)-1].(*ssa.If)
+			if !ok {
+				continue
+			}
+			for _, cf := range condFacts(iff.Cond, 0) {
+				bo := cf.bo
+				edge := -1
+				var X ssa.Value
+				if l, ok := lenOperand(bo.Y); ok && bo.X == a {
+					X = l
+					switch bo.Op {
+					case token.LSS:
+						edge = cf.trueEdge
+					case token.GEQ:
+						edge = cf.falseEdge
+					}
+				}
+				if l, ok := lenOperand(bo.X); ok && bo.Y == a {
+					X = l
+					switch bo.Op {
+					case token.GTR:
+						edge = cf.trueEdge
+					case token.LEQ:
+						edge = cf.falseEdge
+					}
+				}
+				if edge >= 0 && X != nil && accept(X) && edgesDominate(f, []cfgEdge{{b, edge}}, blk) {
+					return true
+				}
+			}
+		}
+		return false
+	}
+	// form 1
+	if n := mulOf(sl.Low); n != nil && mulOf(hbase) == n && nonNegative(n, 0) {
+		ok := boundedBy(n, func(X ssa.Value) bool {
+			ms, ok := X.(*ssa.MakeSlice)
+			if !ok {
+				return false
+			}
+			q, ok := strip(ms.Len).(*ssa.BinOp)
+			if !ok || q.Op != token.QUO {
+				return false
+			}
+			kc, ok := q.Y.(*ssa.Const)
+			if !ok || !isIntConst(kc) || kc.Int64() != k {
+				return false
+			}
+			l, ok := lenOperand(strip(q.X))
+			return ok && same(l)
+		})
+		if ok {
+			return fmt.Sprintf("window %d*n of a counter below len/%d of the same value", k, k), true
+		}
+	}
+	// form 2
+	if ph, ok := sl.Low.(*ssa.Phi); ok && hbase == ssa.Value(ph) && len(ph.Edges) == 2 {
+		zero, step := false, false
+		for _, e := range ph.Edges {
+			if kc, ok := e.(*ssa.Const); ok && isIntConst(kc) && kc.Int64() == 0 {
+				zero = true
+			}
+			if bo, ok := e.(*ssa.BinOp); ok && bo.Op == token.ADD && bo.X == ssa.Value(ph) {
+				if kc, ok := bo.Y.(*ssa.Const); ok && isIntConst(kc) && kc.Int64() == k {
+					step = true
+				}
+			}
+		}
+		if zero && step && boundedBy(ph, same) && lengthMultipleOf(f, sl.X, k, blk, same) {
+			return fmt.Sprintf("index advances by %d below a length tested to be a multiple of %d", k, k), true
+		}
+	}
+	return "", false
+}
+
+// lengthMultipleOf: a dominating test establishes len(x)%k == 0.
+func lengthMultipleOf(f *ssa.Function, x ssa.Value, k int64, blk *ssa.BasicBlock, same func(ssa.Value) bool) bool {
+	for _, b := range f.Blocks {
+		iff, ok := b.Instrs[len(b.Instrs)-1].(*ssa.If)
+		if !ok {
+			continue
+		}
+		for _, cf := range condFacts(iff.Cond, 0) {
+			bo := cf.bo
+			rem, ok := bo.X.(*ssa.BinOp)
+			zc, ok2 := bo.Y.(*ssa.Const)
+			if !ok || !ok2 || rem.Op != token.REM || !isIntConst(zc) || zc.Int64() != 0 {
+				continue
+			}
+			kc, ok := rem.Y.(*ssa.Const)
+			if !ok || !isIntConst(kc) || kc.Int64() != k {
+				continue
+			}
+			l, ok := lenOperand(rem.X)
+			if !ok || !same(l) {
+				continue
+			}
+			edge := -1
+			switch bo.Op {
+			case token.EQL:
+				edge = cf.trueEdge
+			case token.NEQ:
+				edge = cf.falseEdge
+			}
+			if edge >= 0 && edgesDominate(f, []cfgEdge{{b, edge}}, blk) {
+				return true
+			}
 		}
 	}
 	return false
